@@ -2547,6 +2547,22 @@ def eval_workflow_api(ctx):
     out["duplicate"] = call("target", "T1", [], ["other"])
     out["duplicate_template"] = call("target_from_template", "T2", tmpl)
     out["registered"] = {k: v for k, v in wf.targets.items()}
+    # protect entries are kept whatever their spelling (they are normalised later, together with the outputs)
+    out["protect"] = call("target", "T4", [], ["bam/x.bam", "/abs/y"], protect=["./bam/x.bam", "/abs/../abs/y"])
+    tmpl_p = Obj("template", inputs=[], outputs=["bam/z.bam"], options={}, working_dir=None, spec="SPEC", protect={"./bam/z.bam"}, group="g")
+    out["protect_template"] = call("target_from_template", "T5", tmpl_p)
+    # every target gets its own options dictionary (targets are mutable; the backend defaults are merged into it at submission)
+    out["own_options_defaults"] = call("target", "T6", [], ["o6"])
+    shared = {"memory": "8g"}
+    wf2 = Obj("workflow", name="wf2", working_dir="/wfdir", defaults={}, targets={}, **{"__class__": wcls})
+    tmpl_o = Obj("template", inputs=[], outputs=["o7"], options=shared, working_dir=None, spec="SPEC", protect=set(), group="g")
+    try:
+        out["own_options_template"] = interp.call(idx.method(wcls, "target_from_template"), ("T7", tmpl_o), {}, self_obj=wf2)
+    except Raised as exc:
+        out["own_options_template"] = f"raise {exc.kind}"
+    except Unsupported as exc:
+        out["own_options_template"] = f"<unsupported: {exc}>"
+    out["_defaults"], out["_shared"] = wf.defaults, shared
     return out
 
 
@@ -2582,7 +2598,23 @@ def workflow_api_witness(ctx):
     for k, label in (("duplicate", "Workflow.target"), ("duplicate_template", "Workflow.target_from_template")):
         if out[k] != "raise WorkflowError":
             diffs.append(f"{label} with a name that already exists gives {out[k] if isinstance(out[k], str) else 'a second target'}; expected WorkflowError (target names must be unique)")
-    return 5, diffs, None
+    for k, label, want in (("protect", "Workflow.target(outputs=['bam/x.bam', '/abs/y'], protect=['./bam/x.bam', '/abs/../abs/y'])", {"./bam/x.bam", "/abs/../abs/y"}),
+                           ("protect_template", "a template with outputs=['bam/z.bam'], protect={'./bam/z.bam'}", {"./bam/z.bam"})):
+        t = out[k]
+        got = attrs(t).get("protect") if isinstance(t, Obj) else t
+        try:
+            got_set = set(got)
+        except TypeError:
+            got_set = got
+        if got_set != want:
+            diffs.append(f"{label} gives a target protecting {got_set if isinstance(got_set, set) else got}: protect entries spelled differently from the output they name "
+                         "are dropped before paths are normalised, so `gwf clean` deletes a protected file")
+    for k, src, label in (("own_options_defaults", "_defaults", "the workflow's defaults"), ("own_options_template", "_shared", "the template's options")):
+        t = out[k]
+        if isinstance(t, Obj) and attrs(t).get("options") is out[src]:
+            diffs.append(f"a target whose options come from one source only shares the dictionary object of {label}: options set on one target (or merged in at its "
+                         "submission) show up in every other target's resource directives")
+    return 9, diffs, None
 
 
 def eval_workflow_map(ctx, name=None, inputs=("a", ("b", "c"), {"x": "d"})):
@@ -2635,4 +2667,12 @@ def workflow_map_witness(ctx):
         want_calls = [(("a",), {"flag": 1}), (("b", "c"), {"flag": 1}), ((), {"x": "d", "flag": 1})]
         if calls != want_calls:
             diffs.append(f"Workflow.map calls the template with {calls}; expected scalar -> one argument, sequence -> positional arguments, mapping -> keyword arguments, plus `extra`")
+    # a naming function that gives two items of ONE map call the same name: names must be unique, so this is an error (never a silent replacement)
+    got = eval_workflow_map(ctx, (lambda i, t: "same" if i < 2 else "other"))
+    if isinstance(got[0], str) and got[0].startswith("<unsupported"):
+        return n, diffs, got[0]
+    n += 1
+    if not (isinstance(got[0], str) and got[0].startswith("raise WorkflowError")):
+        diffs.append(f"Workflow.map with a naming function that names two of three items 'same' gives {got[0]} (registered: {got[2] if len(got) > 2 else '?'}); expected WorkflowError - "
+                     "a later target silently replaces the earlier one, so there are fewer targets than items")
     return n, diffs, None
